@@ -339,6 +339,8 @@ def run(ctx):
     from .configtime import no_shared_mutable_defaults as _mutdef, selection_not_changed_in_place as _sel_inplace
     _mutdef(ctx, 'C07.R1', classes=('Slicer', 'PlateSlicer', 'Plate'))
     _sel_inplace(ctx, 'C07.R1')
+    from .configtime import stepped_extent_counts_round_up as _ceil
+    _ceil(ctx, 'C07.R1')
     from .configtime import late_binding_closures as _late
     _late(ctx, 'C07.R2', classes=('Container', 'Plate', 'PlateSlicer', 'Slicer'))
     from . import c01
